@@ -606,7 +606,8 @@ func blockExits(b *ast.BlockStmt) bool {
 // pathConds gives the structured condition under which `target` (a statement nested in block through if/else only) runs,
 // counted from the top of block: (cond, true) for every enclosing if-body, (cond, false) for every enclosing else and for
 // every earlier `if cond { …; exit }` of a block on the way; (cond, true) for an earlier `if cond {…} else { …; exit }`.
-// ok is false when the nesting goes through anything else (loops, switches, literals).
+// Loop bodies are entered with the conditions that hold before the loop. ok is false when the nesting goes through anything
+// else (switches, literals).
 func pathConds(block *ast.BlockStmt, target ast.Node) (conds []condLit, ok bool) {
 	inside := func(n ast.Node) bool { return n != nil && n.Pos() <= target.Pos() && target.End() <= n.End() }
 	if !inside(block) {
@@ -631,12 +632,76 @@ func pathConds(block *ast.BlockStmt, target ast.Node) (conds []condLit, ok bool)
 			return conds, true
 		}
 		switch s := st.(type) {
+		case *ast.AssignStmt, *ast.ExprStmt, *ast.ReturnStmt, *ast.IncDecStmt, *ast.DeclStmt, *ast.SendStmt, *ast.GoStmt, *ast.DeferStmt:
+			// target is an expression of this simple statement
+			if _, isLit := target.(*ast.FuncLit); !isLit {
+				return conds, true
+			}
+			return nil, false
+		case *ast.RangeStmt:
+			// a loop body is entered under the conditions that hold before the loop
+			c, ok := pathConds(s.Body, target)
+			return append(conds, c...), ok
+		case *ast.ForStmt:
+			c, ok := pathConds(s.Body, target)
+			return append(conds, c...), ok
 		case *ast.BlockStmt:
 			c, ok := pathConds(s, target)
 			return append(conds, c...), ok
 		case *ast.LabeledStmt:
 			if s.Stmt == target {
 				return conds, true
+			}
+			return nil, false
+		case *ast.SwitchStmt:
+			// `switch tag { case v: … }` reads as tag == v, a tagless switch as its case conditions; a case is reached
+			// with every earlier (for default: every) case condition failing
+			if s.Init != nil {
+				return nil, false
+			}
+			mk := func(v ast.Expr) ast.Expr {
+				if s.Tag == nil {
+					return v
+				}
+				return &ast.BinaryExpr{X: s.Tag, Op: token.EQL, Y: v, OpPos: v.Pos()}
+			}
+			var target_ *ast.CaseClause
+			for _, c := range s.Body.List {
+				if cc, ok := c.(*ast.CaseClause); ok && inside(cc) {
+					target_ = cc
+				}
+			}
+			if target_ == nil {
+				return nil, false
+			}
+			for _, c := range s.Body.List {
+				cc, ok := c.(*ast.CaseClause)
+				if !ok || cc == target_ {
+					if cc == target_ && cc.List != nil {
+						break
+					}
+					continue
+				}
+				if len(cc.List) != 1 {
+					if cc.List == nil {
+						continue // default written before other cases
+					}
+					return nil, false
+				}
+				conds = append(conds, condLit{mk(cc.List[0]), false, nil})
+			}
+			if target_.List != nil {
+				if len(target_.List) != 1 {
+					return nil, false
+				}
+				conds = append(conds, condLit{mk(target_.List[0]), true, nil})
+			}
+			for _, st2 := range target_.Body {
+				if inside(st2) {
+					blk := &ast.BlockStmt{List: target_.Body, Lbrace: target_.Colon, Rbrace: target_.End()}
+					c, ok := pathConds(blk, target)
+					return append(conds, c...), ok
+				}
 			}
 			return nil, false
 		case *ast.IfStmt:
@@ -711,4 +776,113 @@ func forEachCondBranch(root ast.Node, f func(cond ast.Expr, body []ast.Stmt, at 
 		}
 		return true
 	})
+}
+
+// normCmp brings an ordering test that holds (pos) or fails (!pos) to one of two forms over its operands: "lt" (x < y) or
+// "ge" (x >= y); ok is false for anything that is not <, >, <=, >=.
+func normCmp(e ast.Expr, pos bool) (kind string, x, y ast.Expr, ok bool) {
+	e = unparen(e)
+	for {
+		u, isNot := e.(*ast.UnaryExpr)
+		if !isNot || u.Op != token.NOT {
+			break
+		}
+		e, pos = unparen(u.X), !pos
+	}
+	b, isB := e.(*ast.BinaryExpr)
+	if !isB {
+		return "", nil, nil, false
+	}
+	switch b.Op {
+	case token.LSS:
+		kind, x, y = "lt", b.X, b.Y
+	case token.GTR:
+		kind, x, y = "lt", b.Y, b.X
+	case token.GEQ:
+		kind, x, y = "ge", b.X, b.Y
+	case token.LEQ:
+		kind, x, y = "ge", b.Y, b.X
+	default:
+		return "", nil, nil, false
+	}
+	if !pos {
+		if kind == "lt" {
+			kind = "ge"
+		} else {
+			kind = "lt"
+		}
+	}
+	return kind, unparen(x), unparen(y), true
+}
+
+// litSite is a composite literal found in a function, or — one call away — in a same-package helper it calls (a
+// constructor extracted from the function); args binds the helper's parameters to the call's argument expressions.
+type litSite struct {
+	owner *FuncNode
+	lit   *ast.CompositeLit
+	call  *ast.CallExpr
+	args  map[types.Object]ast.Expr
+}
+
+// objIn: the object (of fn's scope) that identifier-like expression e of the literal's owner denotes: for a helper's
+// parameter, the object of the argument it was called with.
+func (s litSite) objIn(fn *FuncNode, e ast.Expr) types.Object {
+	o := s.owner.objOf(e)
+	if s.owner == fn || o == nil {
+		return o
+	}
+	if a, ok := s.args[o]; ok {
+		return fn.objOf(a)
+	}
+	return o
+}
+
+// litsVia: composite literals under scope (a node of fn) satisfying match, followed by those of same-package helpers
+// called under scope.
+func (p *Prog) litsVia(fn *FuncNode, scope ast.Node, match func(owner *FuncNode, cl *ast.CompositeLit) bool) []litSite {
+	var out []litSite
+	seen := map[*FuncNode]bool{}
+	ast.Inspect(scope, func(n ast.Node) bool {
+		switch x := n.(type) {
+		case *ast.CompositeLit:
+			if enc := p.enclosing(fn.Pkg, x.Pos()); enc != nil && match(enc, x) {
+				out = append(out, litSite{owner: fn, lit: x})
+			}
+		case *ast.CallExpr:
+			enc := p.enclosing(fn.Pkg, x.Pos())
+			if enc == nil {
+				return true
+			}
+			H := p.ByObj[enc.Callee(x)]
+			if H == nil || H.Body == nil || H.Pkg != fn.Pkg || H == fn || seen[H] {
+				return true
+			}
+			seen[H] = true
+			args := map[types.Object]ast.Expr{}
+			for i, a := range x.Args {
+				if po := H.paramObj(i); po != nil {
+					args[po] = a
+				}
+			}
+			ast.Inspect(H.Body, func(y ast.Node) bool {
+				if cl, ok := y.(*ast.CompositeLit); ok && match(H, cl) {
+					out = append(out, litSite{owner: H, lit: cl, call: x, args: args})
+				}
+				return true
+			})
+		}
+		return true
+	})
+	return out
+}
+
+// loopEarlyExitsOfKind: the statements of loopEarlyExits that are branch statements of the given token (break, …)
+func loopEarlyExitsOfKind(body *ast.BlockStmt, tok token.Token) []ast.Stmt {
+	var out []ast.Stmt
+	for _, s := range loopEarlyExits(body, token.NoPos) {
+		if b, ok := s.(*ast.BranchStmt); ok && b.Tok == tok {
+			out = append(out, s)
+		}
+	}
+	return out
 }
